@@ -68,6 +68,11 @@ def _judge_sentence(sig, what, sentence, entropy):
 def check_encode(case, ctx):
     bip39, BaseWallet = _impl()
     e = case["entropy"]
+    # requests of the neighbouring (invalid) sizes come first: whatever they leave behind must not affect the valid one
+    for bad in (e + e[:1], e[:-1]):
+        st_, s = call(bip39.mnemonic_from_entropy, bad.hex())
+        if st_ == "ok":
+            raise Violation("C04/encode/neighbour-size-accepted", "mnemonic_from_entropy(<%d bytes>) returned %r" % (len(bad), s))
     for form, text in (("lower", e.hex()), ("upper", e.hex().upper())):
         st_, s = call(bip39.mnemonic_from_entropy, entropy=text) if form == "upper" else call(bip39.mnemonic_from_entropy, text)
         if st_ == "exc":
